@@ -515,7 +515,7 @@ def region_layouts(rng, n):
     return out
 
 
-def real_region_verdict(L, regs):
+def real_region_verdict(L, regs, attrs=None):
     """the real DASSH_Input.check_unrodded_regions on a stub input object (real log(): error = SystemExit)"""
     from dassh.read_input import DASSH_Input
     obj = DASSH_Input.__new__(DASSH_Input)
@@ -523,15 +523,17 @@ def real_region_verdict(L, regs):
     obj._logger = _CaptureLogger()
     ar = {}
     for i, (a, b) in enumerate(regs):
-        ar["r%d" % i] = dict(z_lo=a, z_hi=b, vf_coolant=0.3, hydraulic_diameter=0.0, epsilon=0.0, convection_factor=None,
-                             model='simple')
+        vf_, model_ = attrs[i] if attrs else (0.3, 'simple')
+        ar["r%d" % i] = dict(z_lo=a, z_hi=b, vf_coolant=vf_, hydraulic_diameter=0.0, epsilon=0.0, convection_factor=None,
+                             model=model_)
     obj.data = {'Assembly': {'a': {'use_low_fidelity_model': False, 'convection_factor': None, 'AxialRegion': ar}},
                 'Core': {'length': L}}
     try:
         obj.check_unrodded_regions()
     except SystemExit:
         msg = " ".join(obj._logger.msgs[-1:])
-        for key, kind in (("non-postive height", "height"), ("overlap", "overlap"), ("only one rodded region", "multiple"),
+        for key, kind in (("vf_coolant must be greater", "nocoolant"), ("model must be", "model"),
+                          ("non-postive height", "height"), ("overlap", "overlap"), ("only one rodded region", "multiple"),
                           ("whole core length", "norods")):
             if key in msg:
                 return "err " + kind
@@ -788,6 +790,37 @@ def assignment_correspondence(ctx, rng, n):
                    "assignment lines" % len(cases), bad == 0, kind="correspondence", detail="disagreements %d" % bad)
 
 
+def regions_full_correspondence(ctx, rng, n):
+    """the same layouts with their attributes: coolant volume fraction (mostly positive, sometimes exactly zero) and model name
+    (mostly one of the two that exist) per region; Model.AcceptRegions.checkRegionsFull must give the reader's verdict, error
+    kind (attribute errors before bound errors, first offending region first) and rodded bounds"""
+    cases = region_layouts(rng, n)
+    reqs, attrs_all = [], []
+    for _, L, regs in cases:
+        attrs = []
+        for _r in regs:
+            vf = 0.0 if rng.random() < 0.08 else round(rng.choice([1e-9, rng.uniform(0.05, 0.95), 1.0]), 9)
+            model = rng.choice(['porous', 'Simple', '6-node', '']) if rng.random() < 0.08 else rng.choice(['simple', '6node'])
+            attrs.append((vf, model))
+        attrs_all.append(attrs)
+        reqs.append("regionsf %d | %s" % (bits(L), " ".join("%d %d %d %d" % (bits(a), bits(b), bits(vf), bits(1.0 if m in ('simple', '6node') else 0.0))
+                                                            for (a, b), (vf, m) in zip(regs, attrs))))
+    bad = 0
+    for (kind, L, regs), attrs, rep in zip(cases, attrs_all, modelio.ask(reqs)):
+        real = real_region_verdict(L, regs, attrs)
+        ctx.evals += 1
+        ctx.count("regions-full:%s" % (real.split()[0] + ("" if real.startswith("ok") else ":" + real.split()[1])))
+        if real.startswith("ok") and any(vf <= 0 or m not in ('simple', '6node') for vf, m in attrs):
+            ctx.violation("c18-invalid-accepted:axial-region-attributes", "check_unrodded_regions accepts regions with the attributes %r "
+                          "(a region without coolant, or with a model that does not exist)" % (attrs,), L=L, regions=regs, attrs=attrs)
+        if rep != real:
+            bad += 1
+            ctx.problem("correspondence", "Model.AcceptRegions.checkRegionsFull vs DASSH_Input.check_unrodded_regions",
+                        "L=%r regions=%r attrs=%r: model %s, real %s" % (L, regs, attrs, rep, real))
+    ctx.obligation("Model.AcceptRegions.checkRegionsFull reproduces check_unrodded_regions (attributes, then bounds) on %d layouts"
+                   % len(cases), bad == 0, kind="correspondence", detail="disagreements %d" % bad)
+
+
 # ---------------------------------------------------------------------------------------------------------------
 # output stage: an accepted input must also get through the sweep WITH output and the post-processing
 
@@ -870,6 +903,7 @@ def run(ctx):
     ctx.prove("Dassh.Props.C18Assignment")
     if ok_driver:
         regions_correspondence(ctx, rng, 3000 if ctx.thorough else 600)
+        regions_full_correspondence(ctx, rng, 2000 if ctx.thorough else 400)
         fuel_correspondence(ctx, rng, 3000 if ctx.thorough else 600)
         assignment_correspondence(ctx, rng, 3000 if ctx.thorough else 600)
     n_valid = 24 if ctx.thorough else 8
